@@ -521,9 +521,38 @@ func (bs *blockState) exec(ins ssa.Instruction) {
 			fr.vals[x] = bs.freshOf(x.Type(), "lookup", pos)
 		}
 	case *ssa.Range:
+		// map iteration: arbitrary order, every key exactly once (ghost set of visited keys)
+		if mt, ok := x.X.Type().Underlying().(*types.Map); ok {
+			m := bs.tm(fr.value(x.X), "", pos)
+			ks := so.sortOf(mt.Key())
+			c := ex.newCell("rangevisited", "(Array "+ks+" Bool)")
+			bs.st.cells[c] = ex.fresh("visited0", "(Array "+ks+" Bool)")
+			ex.emit("(assert (forall ((k %s)) (! (not (select %s k)) :pattern ((select %s k)))))", ks, bs.st.cells[c].(Term).S, bs.st.cells[c].(Term).S)
+			rv := &RangeVal{m: m, visited: c, keySort: ks, elemSort: so.sortOf(mt.Elem())}
+			fr.vals[x] = rv
+			fr.names["range_map"] = m
+			fr.cellNames["range_visited"] = c
+			return
+		}
 		fr.vals[x] = &unknownVal{"range iterator"}
 	case *ssa.Next:
 		tt := x.Type().(*types.Tuple)
+		if rv, ok := fr.value(x.Iter).(*RangeVal); ok {
+			okT := ex.fresh("rng_ok", "Bool")
+			k := ex.fresh("rng_k", rv.keySort)
+			var v Val = ex.fresh("rng_v", rv.elemSort)
+			if r := ex.P.rangeFact(v.(Term), tt.At(2).Type()); r.S != "true" {
+				ex.emit("(assert %s)", r.S)
+			}
+			vis := bs.cellTerm(rv.visited, pos)
+			has, get := ex.P.mapFuncs(rv.m.Sort, rv.keySort, rv.elemSort)
+			ex.assume(bs.reach, implies(okT, and(Term{"(" + has + " " + rv.m.S + " " + k.S + ")", "Bool"}, not(Term{"(select " + vis.S + " " + k.S + ")", "Bool"}),
+				eq(v.(Term), Term{"(" + get + " " + rv.m.S + " " + k.S + ")", rv.elemSort}))))
+			ex.assume(bs.reach, implies(not(okT), Term{fmt.Sprintf("(forall ((k %s)) (! (=> (%s %s k) (select %s k)) :pattern ((%s %s k))))", rv.keySort, has, rv.m.S, vis.S, has, rv.m.S), "Bool"}))
+			bs.st.cells[rv.visited] = ex.define("visited", ite(okT, Term{"(store " + vis.S + " " + k.S + " true)", vis.Sort}, vis))
+			fr.vals[x] = &Tuple{[]Val{okT, k, v}}
+			return
+		}
 		fr.vals[x] = &Tuple{[]Val{ex.fresh("rng_ok", "Bool"), bs.freshOf(tt.At(1).Type(), "rng_k", pos), bs.freshOf(tt.At(2).Type(), "rng_v", pos)}}
 	case *ssa.MakeClosure:
 		fv := &FuncVal{fn: x.Fn.(*ssa.Function)}
